@@ -1,36 +1,57 @@
-(* C09 — a small expression language with the result type and nullability the engine reports, and its evaluation.
+(* C09 — a typed expression language with the result type and nullability the engine reports, and its evaluation.
 
-   Go code mirrored (Type()/IsNullable()/Eval of sql/expression):
-   - GetField: type and nullability of the column; Literal: nullable iff the value is NULL (literal.go)
-   - UnaryMinus, Arithmetic + - *: BIGINT over BIGINT operands, nullable iff an operand is (BinaryExpressionStub)
-   - IntDiv / Mod: always nullable (div.go, mod.go: division by zero gives NULL)
-   - comparison =, <: boolean (0/1), nullable iff an operand is; IS NULL: never nullable (isnull.go)
-   - COALESCE(a, b): nullable iff all arguments are (function/coalesce.go); IF(c, a, b): nullable iff a branch is
-     (function/if.go); CONCAT: text, nullable iff an argument is
-   - relational layer: a LEFT JOIN makes the right side's columns nullable (plan/join.go Schema), UNION makes a
-     column nullable iff it is nullable on either side (resolve_unions / set_op schema). *)
+   Go code mirrored (Type()/IsNullable()/Eval of sql/expression and sql/expression/function, types of sql/types):
+   - types: the integer kinds (tinyint .. bigint, signed/unsigned), boolean (tinyint(1)), DECIMAL(p,s), DOUBLE, text, the NULL type
+   - Literal: an integer literal takes the smallest of int8, uint8, int16, uint16, int32, uint32, int64, uint64 that holds it, a
+     decimal literal DECIMAL(digits, scale), a string LONGTEXT, NULL the null type; nullable iff NULL (literal.go, planbuilder)
+   - GetField; UnaryMinus.Type (int8/16/32 -> bigint, uint32 -> int, uint64 -> bigint, every other type unchanged — also
+     tinyint/smallint/mediumint UNSIGNED) and UnaryMinus.Eval (Go negation of the narrowed machine integer)
+   - Arithmetic.getReturnType for + - * (unsigned pair -> bigint unsigned, integer pair -> bigint, one decimal operand -> THAT
+     operand's type, two decimals -> max precision + scale, scale max / sum, capped at 65/30), BinaryExpressionStub.IsNullable
+   - IntDiv.Type (bigint unsigned as soon as one operand is unsigned), Mod.Type = getFloatOrMaxDecimalType (a DECIMAL sized by
+     the digits of the literals / decimal columns / decimal casts found anywhere in the operand trees), both always nullable
+   - comparison, AND/OR/NOT (three-valued), IS NULL, IN (always nullable), BETWEEN = lower <= v AND upper >= v
+   - Case.Type = fold of types.GeneralizeTypes (generalizeNumberTypes for numbers, text otherwise), Case.IsNullable, Case.Eval
+     converts the chosen value to the case type and returns the original value if that fails
+   - function/nullif.go, ifnull.go, if.go (GeneralizeTypes), coalesce.go (its own merge rule), greatest_least.go (integers),
+     Convert (CAST AS SIGNED / UNSIGNED / DECIMAL(p,s) / CHAR), CONCAT, UPPER, SUBSTRING, LENGTH *)
 From Coq Require Import List ZArith Bool Lia.
 Import ListNotations.
 Open Scope Z_scope.
 
-Inductive val := VNull | VInt (z : Z) | VStr (s : list Z).
-Inductive ty := TInt | TBool | TStr.
+Inductive ikind := I8 | U8 | I16 | U16 | I24 | U24 | I32 | U32 | I64 | U64.
+Inductive ty := TNull | TBool | TInt (k : ikind) | TDec (p s : Z) | TDbl | TStr.
+(* VDec m s is m / 10^s; VDbl n d the double n / d (only aggregates produce it) *)
+Inductive val := VNull | VInt (z : Z) | VDec (m s : Z) | VDbl (n d : Z) | VStr (b : list Z).
 Record col := Col { c_ty : ty; c_nullable : bool }.
 Definition schema := list col.
 Definition row := list val.
 
-(* a value is a valid value of the type: NULL, or of the right kind and in range *)
-Definition int64_ok (z : Z) : bool := (- 2 ^ 63 <=? z) && (z <? 2 ^ 63).
+Definition ik_lo (k : ikind) : Z :=
+  match k with I8 => -128 | I16 => -32768 | I24 => -8388608 | I32 => -2147483648 | I64 => -9223372036854775808 | _ => 0 end.
+Definition ik_hi (k : ikind) : Z :=
+  match k with
+  | I8 => 127 | U8 => 255 | I16 => 32767 | U16 => 65535 | I24 => 8388607 | U24 => 16777215
+  | I32 => 2147483647 | U32 => 4294967295 | I64 => 9223372036854775807 | U64 => 18446744073709551615
+  end.
+Definition ik_signed (k : ikind) : bool := match k with I8 | I16 | I24 | I32 | I64 => true | _ => false end.
+Definition in_kind (k : ikind) (z : Z) : bool := (ik_lo k <=? z) && (z <=? ik_hi k).
+
+(* a value is a valid value of the type: NULL, or of the right kind and in range.  DECIMAL(p,s) holds scale <= s and
+   fewer than p - s integer digits; an integer in a DECIMAL or DOUBLE column stands for itself *)
 Definition has_type (t : ty) (x : val) : bool :=
   match x, t with
   | VNull, _ => true
-  | VInt z, TInt => int64_ok z
-  | VInt z, TBool => (z =? 0) || (z =? 1)
+  | VInt z, TBool => in_kind I8 z
+  | VInt z, TInt k => in_kind k z
+  | VInt z, TDec p s => Z.abs z <? 10 ^ (p - s)
+  | VDec m s', TDec p s => (0 <=? s') && (s' <=? s) && (Z.abs m <? 10 ^ (p - s + s'))
+  | VInt _, TDbl | VDbl _ _, TDbl => true
   | VStr _, TStr => true
   | _, _ => false
   end.
-Definition conforms_col (c : col) (x : val) : bool :=
-  has_type (c_ty c) x && (c_nullable c || match x with VNull => false | _ => true end).
+Definition notnull (x : val) : bool := match x with VNull => false | _ => true end.
+Definition conforms_col (c : col) (x : val) : bool := has_type (c_ty c) x && (c_nullable c || notnull x).
 Fixpoint conforms (s : schema) (r : row) : bool :=
   match s, r with
   | [], [] => true
@@ -38,67 +59,210 @@ Fixpoint conforms (s : schema) (r : row) : bool :=
   | _, _ => false
   end.
 
+(* ---------------- type predicates of sql/types ---------------- *)
+Definition is_unsigned (t : ty) : bool := match t with TInt k => negb (ik_signed k) | _ => false end.
+Definition is_signed (t : ty) : bool := match t with TInt k => ik_signed k | TBool => true | _ => false end.
+Definition is_integer (t : ty) : bool := is_signed t || is_unsigned t.
+Definition is_decimal (t : ty) : bool := match t with TDec _ _ => true | _ => false end.
+Definition is_text (t : ty) : bool := match t with TStr => true | _ => false end.
+Definition is_number (t : ty) : bool := match t with TBool | TInt _ | TDec _ _ | TDbl => true | _ => false end.
+Definition ikind_eqb (a b : ikind) : bool :=
+  match a, b with
+  | I8, I8 | U8, U8 | I16, I16 | U16, U16 | I24, I24 | U24, U24 | I32, I32 | U32, U32 | I64, I64 | U64, U64 => true
+  | _, _ => false
+  end.
+(* Type.Equals: NumberType.Equals ignores the display width, so boolean equals tinyint *)
+Definition ty_equals (a b : ty) : bool :=
+  match a, b with
+  | TNull, TNull | TDbl, TDbl | TStr, TStr | TBool, TBool | TBool, TInt I8 | TInt I8, TBool => true
+  | TInt x, TInt y => ikind_eqb x y
+  | TDec p s, TDec q r => (p =? q) && (s =? r)
+  | _, _ => false
+  end.
+
+(* number of decimal digits of n >= 0 ("0" has one) *)
+Fixpoint ndig_fuel (fuel : nat) (n : Z) : Z :=
+  match fuel with O => 1 | S f => if n <? 10 then 1 else 1 + ndig_fuel f (n / 10) end.
+Definition ndig (n : Z) : Z := ndig_fuel 80 (Z.abs n).
+
+Definition lit_ty (x : val) : ty :=
+  match x with
+  | VNull => TNull
+  | VInt z =>
+    if in_kind I8 z then TInt I8 else if in_kind U8 z then TInt U8 else if in_kind I16 z then TInt I16
+    else if in_kind U16 z then TInt U16 else if in_kind I32 z then TInt I32 else if in_kind U32 z then TInt U32
+    else if in_kind I64 z then TInt I64 else if in_kind U64 z then TInt U64 else TDbl
+  | VDec m s => TDec (ndig (Z.abs m / 10 ^ s) + s) s
+  | VDbl _ _ => TDbl
+  | VStr _ => TStr
+  end.
+
+(* ---------------- generalizeNumberTypes / GeneralizeTypes (sql/types/conversion.go) ---------------- *)
+Definition is_k (t : ty) (k : ikind) : bool := match t with TInt k' => ikind_eqb k k' | _ => false end.
+Definition generalize_number (a b : ty) : ty :=
+  if match a, b with TDbl, _ | _, TDbl => true | _, _ => false end then TDbl
+  else if is_decimal a || is_decimal b then TDec 65 30
+  else
+    let sg := is_signed a || is_signed b in
+    if is_k a U64 || is_k b U64 then (if sg then TDec 65 0 else TInt U64)
+    else if is_k a I64 || is_k b I64 then TInt I64
+    else if is_k a U32 || is_k b U32 then (if sg then TInt I64 else TInt U32)
+    else if is_k a I32 || is_k b I32 then TInt I32
+    else if is_k a U24 || is_k b U24 then (if sg then TInt I32 else TInt U24)
+    else if is_k a I24 || is_k b I24 then TInt I24
+    else if is_k a U16 || is_k b U16 then (if sg then TInt I24 else TInt U16)
+    else if is_k a I16 || is_k b I16 then TInt I16
+    else if is_k a U8 || is_k b U8 then (if sg then TInt I16 else TInt U8)
+    else if is_k a I8 || is_k b I8 then TInt I8
+    else match a, b with TBool, TBool => TBool | _, _ => TInt I64 end.
+Definition generalize (a b : ty) : ty :=
+  if ty_equals a b then a
+  else match a, b with
+  | TNull, _ => b
+  | _, TNull => a
+  | _, _ => if is_number a && is_number b then generalize_number a b else TStr
+  end.
+
+(* ---------------- per-operator result types ---------------- *)
+Inductive aop := Add | Sub | Mul.
+Inductive cop := Eq | Ne | Lt | Le | Gt | Ge.
+Inductive ctarget := CSigned | CUnsigned | CDecimal (p s : Z) | CChar.
+
+Definition neg_ty (t : ty) : ty :=
+  match t with
+  | TInt I8 | TInt I16 | TInt I32 => TInt I64
+  | TInt U32 => TInt I32
+  | TInt U64 => TInt I64
+  | TNull | TStr => TDbl
+  | _ => t
+  end.
+
+Definition arith_ty (o : aop) (l r : ty) : ty :=
+  if is_text l || is_text r then TDbl
+  else if match l, r with TDbl, _ | _, TDbl => true | _, _ => false end then TDbl
+  else if is_unsigned l && is_unsigned r then TInt U64
+  else if is_integer l && is_integer r then TInt I64
+  else match l, r with
+  | TDec lp ls, TDec rp rs =>
+    let prec := Z.max lp rp in
+    let scale := match o with Mul => ls + rs | _ => Z.max ls rs end in
+    TDec (Z.min 65 (prec + scale)) (Z.min 30 scale)
+  | TDec _ _, _ => l
+  | _, TDec _ _ => r
+  | _, _ => TDbl
+  end.
+
+Definition intdiv_ty (l r : ty) : ty := if is_unsigned l || is_unsigned r then TInt U64 else TInt I64.
+
+Definition coalesce_ty (a b : ty) : ty :=
+  match b with TNull => a | _ =>
+  match a with TNull => b | _ =>      (* GetConvertToType(Null, r) = GetConvertToType(r, r) *)
+  if ty_equals a b then a
+  else if (is_signed a && is_unsigned b) || (is_unsigned a && is_signed b) then TDec 20 0
+  else if negb (is_number a) || negb (is_number b) then
+    (if match a, b with TDbl, TDbl => true | _, _ => false end then TDbl else TStr)
+  else if is_decimal a || is_decimal b then
+    (if match a, b with TDbl, _ | _, TDbl => true | _, _ => false end then TDbl
+     else if is_decimal b then b else if is_decimal a then a else TDec 10 0)
+  else if is_unsigned a && is_unsigned b then (if is_k a U64 || is_k b U64 then TInt U64 else TInt U32)
+  else if is_integer a && is_integer b then (if is_k a I64 || is_k b I64 then TInt I64 else TInt I32)
+  else TStr
+  end end.
+
+Definition greatest_ty (a b : ty) : ty :=
+  if is_integer a && is_integer b then TInt I64 else if is_text a && is_text b then TStr else TDbl.
+
+Definition cast_ty (t : ctarget) : ty :=
+  match t with CSigned => TInt I64 | CUnsigned => TInt U64 | CDecimal p s => TDec p s | CChar => TStr end.
+
+(* ---------------- expressions ---------------- *)
 Inductive expr :=
 | EField (i : nat) | ELit (x : val)
-| ENeg (a : expr) | EAdd (a b : expr) | ESub (a b : expr) | EMul (a b : expr) | EIntDiv (a b : expr) | EMod (a b : expr)
-| EEq (a b : expr) | ELt (a b : expr) | EIsNull (a : expr)
-| ECoalesce (a b : expr) | EIf (c a b : expr) | EConcat (a b : expr).
+| ENeg (a : expr) | EArith (o : aop) (a b : expr) | EIntDiv (a b : expr) | EMod (a b : expr)
+| ECmp (o : cop) (a b : expr) | EAnd (a b : expr) | EOr (a b : expr) | ENot (a : expr) | EIsNull (a : expr)
+| EIn (a : expr) (l : list expr) | EBetween (a lo hi : expr)
+| ECase (bs : list (expr * expr)) (els : option expr)
+| ENullIf (a b : expr) | EIfNull (a b : expr) | ECoalesce (a b : expr) | EIf (c a b : expr)
+| EGreatest (a b : expr) | ELeast (a b : expr)
+| ECast (a : expr) (t : ctarget)
+| EConcat (a b : expr) | EUpper (a : expr) | ESubstr (a : expr) (pos len : Z) | ELength (a : expr).
 
-Definition lit_ty (x : val) : ty := match x with VStr _ => TStr | _ => TInt end.
+Definition dflt : col := Col TNull true.
 
-(* common type of two branches: boolean only if both are, text only for text, otherwise BIGINT *)
-Definition join_ty (a b : ty) : ty :=
-  match a, b with
-  | TBool, TBool => TBool
-  | TStr, _ | _, TStr => TStr
-  | _, _ => TInt
+(* getFloatOrMaxDecimalType: the largest number of integer digits and of fraction digits over all decimal columns, number
+   literals and decimal casts of the tree *)
+Definition dmax (x y : Z * Z) : Z * Z := (Z.max (fst x) (fst y), Z.max (snd x) (snd y)).
+Fixpoint mod_digits (s : schema) (e : expr) : Z * Z :=
+  match e with
+  | EField i => match c_ty (nth i s dflt) with TDec p sc => (p - sc, sc) | _ => (0, 0) end
+  | ELit (VInt z) => (ndig z, 0)
+  | ELit (VDec m sc) => (ndig (Z.abs m / 10 ^ sc), sc)
+  | ELit _ => (0, 0)
+  | ENeg a | ENot a | EIsNull a | EUpper a | ELength a | ESubstr a _ _ => mod_digits s a
+  | ECast a t => dmax (mod_digits s a) (match t with CDecimal p sc => (p - sc, sc) | _ => (0, 0) end)
+  | EArith _ a b | EIntDiv a b | EMod a b | ECmp _ a b | EAnd a b | EOr a b | ENullIf a b | EIfNull a b | ECoalesce a b
+  | EGreatest a b | ELeast a b | EConcat a b => dmax (mod_digits s a) (mod_digits s b)
+  | EBetween a b c | EIf a b c => dmax (mod_digits s a) (dmax (mod_digits s b) (mod_digits s c))
+  | EIn a l => fold_left (fun acc x => dmax acc (mod_digits s x)) l (mod_digits s a)
+  | ECase bs els =>
+    let m := fold_left (fun acc p => dmax acc (dmax (mod_digits s (fst p)) (mod_digits s (snd p)))) bs (0, 0) in
+    match els with Some x => dmax m (mod_digits s x) | None => m end
   end.
+Definition mod_ty_of (d : Z * Z) : ty :=
+  let '(w, f) := d in
+  if (30 <? f) || (65 <? w + f) then TDec 65 10 else if w + f =? 0 then TDec 10 0 else TDec (w + f) f.
 
 Fixpoint type_of (s : schema) (e : expr) : ty :=
   match e with
-  | EField i => c_ty (nth i s (Col TInt true))
+  | EField i => c_ty (nth i s dflt)
   | ELit x => lit_ty x
-  | ENeg _ | EAdd _ _ | ESub _ _ | EMul _ _ | EIntDiv _ _ | EMod _ _ => TInt
-  | EEq _ _ | ELt _ _ | EIsNull _ => TBool
-  | ECoalesce a b => join_ty (type_of s a) (type_of s b)
-  | EIf _ a b => join_ty (type_of s a) (type_of s b)
+  | ENeg a => neg_ty (type_of s a)
+  | EArith o a b => arith_ty o (type_of s a) (type_of s b)
+  | EIntDiv a b => intdiv_ty (type_of s a) (type_of s b)
+  | EMod a b => if is_text (type_of s a) || is_text (type_of s b) then TDbl else mod_ty_of (dmax (mod_digits s a) (mod_digits s b))
+  | ECmp _ _ _ | EAnd _ _ | EOr _ _ | EIsNull _ | EIn _ _ | EBetween _ _ _ => TBool
+  | ENot a => match type_of s a with TNull => TNull | _ => TBool end
+  | ECase bs els =>
+    let t := fold_left (fun acc p => generalize acc (type_of s (snd p))) bs TNull in
+    match els with Some x => generalize t (type_of s x) | None => t end
+  | ENullIf a _ => type_of s a
+  | EIfNull a b | EIf _ a b => generalize (type_of s a) (type_of s b)
+  | ECoalesce a b => coalesce_ty (type_of s a) (type_of s b)
+  | EGreatest a b | ELeast a b => greatest_ty (type_of s a) (type_of s b)
+  | ECast _ t => cast_ty t
   | EConcat _ _ => TStr
+  | EUpper a | ESubstr a _ _ => type_of s a
+  | ELength _ => TInt I32
   end.
 
 Fixpoint nullable (s : schema) (e : expr) : bool :=
   match e with
-  | EField i => c_nullable (nth i s (Col TInt true))
-  | ELit x => match x with VNull => true | _ => false end
-  | ENeg a => nullable s a
-  | EAdd a b | ESub a b | EMul a b | EEq a b | ELt a b | EConcat a b => nullable s a || nullable s b
-  | EIntDiv _ _ | EMod _ _ => true
+  | EField i => c_nullable (nth i s dflt)
+  | ELit x => negb (notnull x)
+  | ENeg a | ENot a | EUpper a | ELength a | ESubstr a _ _ => nullable s a
+  | EArith _ a b | ECmp _ a b | EAnd a b | EOr a b | EConcat a b | EGreatest a b | ELeast a b => nullable s a || nullable s b
+  | EIntDiv _ _ | EMod _ _ | EIn _ _ | ENullIf _ _ => true
   | EIsNull _ => false
+  | EBetween a b c => nullable s a || nullable s b || nullable s c
+  | ECase bs els =>
+    existsb (fun p => nullable s (snd p)) bs || match els with Some x => nullable s x | None => true end
+  | EIfNull a b => if nullable s a then nullable s b else false
   | ECoalesce a b => nullable s a && nullable s b
   | EIf _ a b => nullable s a || nullable s b
+  | ECast a t => match t with CChar => true | _ => nullable s a end
   end.
 
-Definition ty_eqb (a b : ty) : bool := match a, b with TInt, TInt | TBool, TBool | TStr, TStr => true | _, _ => false end.
-Definition numeric (t : ty) : bool := match t with TStr => false | _ => true end.
+(* ---------------- evaluation ---------------- *)
+(* Err: an error of the statement or a situation outside the modelled domain (integer overflow, text in arithmetic) *)
+Inductive res := Ok (x : val) | Err.
+Definition bindr (x : res) (f : val -> res) : res := match x with Ok v => f v | Err => Err end.
 
-(* operand types the fragment admits (the generator only produces such expressions) *)
-Fixpoint well_typed (s : schema) (e : expr) : bool :=
-  match e with
-  | EField i => Nat.ltb i (length s)
-  | ELit x => has_type (lit_ty x) x
-  | ENeg a => well_typed s a && numeric (type_of s a)
-  | EAdd a b | ESub a b | EMul a b | EIntDiv a b | EMod a b =>
-    well_typed s a && well_typed s b && numeric (type_of s a) && numeric (type_of s b)
-  | EEq a b | ELt a b => well_typed s a && well_typed s b && (numeric (type_of s a) && numeric (type_of s b) || ty_eqb (type_of s a) TStr && ty_eqb (type_of s b) TStr)
-  | EIsNull a => well_typed s a
-  | ECoalesce a b => well_typed s a && well_typed s b && Bool.eqb (numeric (type_of s a)) (numeric (type_of s b))
-  | EIf c a b => well_typed s c && well_typed s a && well_typed s b && Bool.eqb (numeric (type_of s a)) (numeric (type_of s b))
-  | EConcat a b => well_typed s a && well_typed s b && ty_eqb (type_of s a) TStr && ty_eqb (type_of s b) TStr
-  end.
-
-Inductive res := Ok (x : val) | ErrRange.     (* BIGINT overflow is an error, never a wrapped value, in this model *)
-
-Definition int_res (z : Z) : res := if int64_ok z then Ok (VInt z) else ErrRange.
+Definition two (w : Z) : Z := 2 ^ w.
+(* reinterpretation of the low w bits as a signed machine integer *)
+Definition sw (w z : Z) : Z := let m := z mod two w in if m <? two (w - 1) then m else m - two w.
+Definition fit (k : ikind) (z : Z) : res := if in_kind k z then Ok (VInt z) else Err.
 Definition bool_val (b : bool) : val := VInt (if b then 1 else 0).
+
 Fixpoint list_ltb (a b : list Z) : bool :=
   match a, b with
   | _, [] => false | [], _ :: _ => true
@@ -107,62 +271,359 @@ Fixpoint list_ltb (a b : list Z) : bool :=
 Fixpoint list_eqb (a b : list Z) : bool :=
   match a, b with [], [] => true | x :: a', y :: b' => (x =? y) && list_eqb a' b' | _, _ => false end.
 
-Definition bin_int (f : Z -> Z -> res) (x y : res) : res :=
+(* numbers as (mantissa, scale) *)
+Definition to_dec (x : val) : option (Z * Z) :=
+  match x with VInt z => Some (z, 0) | VDec m s => Some (m, s) | _ => None end.
+Definition align (a b : Z * Z) : Z * Z * Z :=
+  let s := Z.max (snd a) (snd b) in (fst a * 10 ^ (s - snd a), fst b * 10 ^ (s - snd b), s).
+(* comparison of two non-NULL values: Some (Lt/Eq/Gt) or None when the kinds are not comparable in the model *)
+Definition cmp_vals (x y : val) : option comparison :=
   match x, y with
-  | ErrRange, _ | _, ErrRange => ErrRange
-  | Ok (VInt a), Ok (VInt b) => f a b
-  | Ok _, Ok _ => Ok VNull
+  | VStr a, VStr b => Some (if list_eqb a b then Datatypes.Eq else if list_ltb a b then Datatypes.Lt else Datatypes.Gt)
+  | _, _ =>
+    match to_dec x, to_dec y with
+    | Some a, Some b => let '(m, n, _) := align a b in Some (m ?= n)
+    | _, _ => None
+    end
+  end.
+Definition cop_holds (o : cop) (c : comparison) : bool :=
+  match o, c with
+  | Eq, Datatypes.Eq | Le, Datatypes.Eq | Ge, Datatypes.Eq | Lt, Datatypes.Lt | Le, Datatypes.Lt | Ne, Datatypes.Lt
+  | Gt, Datatypes.Gt | Ge, Datatypes.Gt | Ne, Datatypes.Gt => true
+  | _, _ => false
+  end.
+Definition cmp_res (o : cop) (x y : val) : res :=
+  match x, y with
+  | VNull, _ | _, VNull => Ok VNull
+  | _, _ => match cmp_vals x y with Some c => Ok (bool_val (cop_holds o c)) | None => Err end
   end.
 
-Fixpoint eval (r : row) (e : expr) : res :=
+(* truth value: Some true / Some false / None for NULL; text is outside the model *)
+Definition truth (x : val) : option (option bool) :=
+  match x with
+  | VNull => Some None
+  | VInt z => Some (Some (negb (z =? 0)))
+  | VDec m _ => Some (Some (negb (m =? 0)))
+  | VDbl n _ => Some (Some (negb (n =? 0)))
+  | VStr _ => None
+  end.
+Definition and3 (x y : val) : res :=
+  match truth x, truth y with
+  | Some (Some false), Some _ | Some _, Some (Some false) => Ok (bool_val false)
+  | Some None, Some _ | Some _, Some None => Ok VNull
+  | Some (Some true), Some (Some true) => Ok (bool_val true)
+  | _, _ => Err
+  end.
+Definition or3 (x y : val) : res :=
+  match truth x, truth y with
+  | Some (Some true), Some _ | Some _, Some (Some true) => Ok (bool_val true)
+  | Some None, Some _ | Some _, Some None => Ok VNull
+  | Some (Some false), Some (Some false) => Ok (bool_val false)
+  | _, _ => Err
+  end.
+Definition not3 (x : val) : res :=
+  match truth x with Some None => Ok VNull | Some (Some b) => Ok (bool_val (negb b)) | None => Err end.
+
+(* UnaryMinus.Eval: Go negation of the machine integer the child type is stored in *)
+Definition neg_val (t : ty) (x : val) : res :=
+  match x with
+  | VNull => Ok VNull
+  | VDec m s => Ok (VDec (- m) s)
+  | VInt z =>
+    match t with
+    | TInt I8 | TInt I16 | TInt I32 | TInt I24 | TBool => Ok (VInt (- z))
+    | TInt I64 => if z =? ik_lo I64 then Err else Ok (VInt (- z))
+    | TInt U8 => Ok (VInt (sw 8 (- sw 8 z)))
+    | TInt U16 => Ok (VInt (sw 16 (- sw 16 z)))
+    | TInt U24 | TInt U32 => Ok (VInt (sw 32 (- sw 32 z)))
+    | TInt U64 => Ok (VInt (sw 64 (- sw 64 z)))
+    | TDec _ _ => Ok (VInt (- z))
+    | _ => Err
+    end
+  | _ => Err
+  end.
+
+Definition aop_z (o : aop) (x y : Z) : Z := match o with Add => x + y | Sub => x - y | Mul => x * y end.
+Definition arith_val (o : aop) (t : ty) (x y : val) : res :=
+  match x, y with
+  | VNull, _ | _, VNull => Ok VNull
+  | _, _ =>
+    match t with
+    | TInt k =>
+      match x, y with
+      | VInt a, VInt b => if in_kind k a && in_kind k b then fit k (aop_z o a b) else Err
+      | _, _ => Err
+      end
+    | TDec _ _ =>
+      match to_dec x, to_dec y with
+      | Some a, Some b =>
+        match o with
+        | Mul => Ok (VDec (fst a * fst b) (snd a + snd b))
+        | _ => let '(m, n, s) := align a b in Ok (VDec (aop_z o m n) s)
+        end
+      | _, _ => Err
+      end
+    | _ => Err
+    end
+  end.
+
+Definition intdiv_val (t : ty) (x y : val) : res :=
+  match x, y with
+  | VNull, _ | _, VNull => Ok VNull
+  | _, _ =>
+    match to_dec x, to_dec y with
+    | Some a, Some b =>
+      let '(m, n, _) := align a b in
+      if n =? 0 then Ok VNull
+      else let q := Z.quot m n in if in_kind I64 q then Ok (VInt q) else Err
+    | _, _ => Err
+    end
+  end.
+
+Definition mod_val (x y : val) : res :=
+  match x, y with
+  | VNull, _ | _, VNull => Ok VNull
+  | VInt a, VInt b => if b =? 0 then Ok VNull else Ok (VInt (Z.rem a b))
+  | _, _ =>
+    match to_dec x, to_dec y with
+    | Some a, Some b => let '(m, n, s) := align a b in if n =? 0 then Ok VNull else Ok (VDec (Z.rem m n) s)
+    | _, _ => Err
+    end
+  end.
+
+(* printing of numbers (CAST AS CHAR, CONCAT, conversion to a text type) *)
+Fixpoint digits_fuel (fuel : nat) (n : Z) (acc : list Z) : list Z :=
+  match fuel with
+  | O => acc
+  | S f => let acc' := (48 + n mod 10) :: acc in if n <? 10 then acc' else digits_fuel f (n / 10) acc'
+  end.
+Definition print_nat (n : Z) : list Z := digits_fuel 80 n [].
+Fixpoint pad_zeros (k : nat) (l : list Z) : list Z := match k with O => l | S k' => if (length l <? S k')%nat then pad_zeros k' (48 :: l) else l end.
+Definition print_val (x : val) : option (list Z) :=
+  match x with
+  | VStr b => Some b
+  | VInt z => Some ((if z <? 0 then [45] else []) ++ print_nat (Z.abs z))
+  | VDec m s =>
+    if s <=? 0 then Some ((if m <? 0 then [45] else []) ++ print_nat (Z.abs m))
+    else let ip := Z.abs m / 10 ^ s in let fp := Z.abs m mod 10 ^ s in
+         let f := print_nat fp in
+         Some ((if m <? 0 then [45] else []) ++ print_nat ip ++ [46] ++ repeat 48 (Z.to_nat s - length f) ++ f)
+  | _ => None
+  end.
+
+(* round half away from zero of m / 10^k, k >= 0 *)
+Definition round_div (m k : Z) : Z :=
+  let p := 10 ^ k in let q := Z.abs m / p in let r := Z.abs m mod p in
+  let q' := if 2 * r >=? p then q + 1 else q in if m <? 0 then - q' else q'.
+
+(* conversion of a chosen branch value to the generalised type (Case.Eval, If, IfNull); the value itself when the
+   conversion is not possible *)
+Definition conv_to (t : ty) (x : val) : val :=
+  match t, x with
+  | TStr, VInt _ | TStr, VDec _ _ => match print_val x with Some b => VStr b | None => x end
+  | _, _ => x
+  end.
+
+Definition cast_val (t : ctarget) (x : val) : res :=
+  match x with
+  | VNull => Ok VNull
+  | _ =>
+    match t with
+    | CSigned =>
+      match x with
+      | VInt z => fit I64 (if z >? ik_hi I64 then ik_hi I64 else z)
+      | VDec m s => let q := round_div m s in fit I64 q
+      | _ => Err
+      end
+    | CUnsigned =>
+      match x with
+      | VInt z => if z <? 0 then fit U64 (z + two 64) else fit U64 z
+      | VDec m s => if m <? 0 then Err else fit U64 (round_div m s)
+      | _ => Err
+      end
+    | CDecimal p s =>
+      match to_dec x with
+      | Some (m, s') =>
+        let m' := if s' <=? s then m * 10 ^ (s - s') else round_div m (s' - s) in
+        if (0 <=? s) && (s <=? p) && (Z.abs m' <? 10 ^ p) then Ok (VDec m' s) else Err
+      | None => Err
+      end
+    | CChar => match print_val x with Some b => Ok (VStr b) | None => Err end
+    end
+  end.
+
+Definition upper_byte (c : Z) : Z := if (97 <=? c) && (c <=? 122) then c - 32 else c.
+(* SUBSTRING(str, pos, len) on bytes: pos is 1-based, negative counts from the end, 0 gives '' *)
+Definition substr (b : list Z) (pos len : Z) : list Z :=
+  let n := Z.of_nat (length b) in
+  let start := if pos =? 0 then n + 1 else if pos <? 0 then n + pos else pos - 1 in
+  if (start <? 0) || (n <=? start) || (len <=? 0) then []
+  else firstn (Z.to_nat len) (skipn (Z.to_nat start) b).
+
+Definition concat_val (x y : val) : res :=
+  match x, y with
+  | VNull, _ | _, VNull => Ok VNull
+  | _, _ => match print_val x, print_val y with Some p, Some q => Ok (VStr (p ++ q)) | _, _ => Err end
+  end.
+Definition str_arg (x : val) : option (list Z) := match x with VNull => None | _ => print_val x end.
+
+(* IN list: first equal element gives TRUE; otherwise NULL if a NULL element was seen, else FALSE *)
+Definition in_go (ev : expr -> res) (x : val) : list expr -> bool -> res :=
+  fix go (l : list expr) (sawnull : bool) : res :=
+    match l with
+    | [] => Ok (if sawnull then VNull else bool_val false)
+    | y :: l' =>
+      bindr (ev y) (fun v =>
+        match v with
+        | VNull => go l' true
+        | _ => match cmp_vals x v with
+               | Some Datatypes.Eq => Ok (bool_val true)
+               | Some _ => go l' sawnull
+               | None => Err
+               end
+        end)
+    end.
+(* searched CASE: the first branch whose condition is true, else ELSE, else NULL; the value is converted to the case type *)
+Definition case_go (ev : expr -> res) (t : ty) (els : option expr) : list (expr * expr) -> res :=
+  fix go (bs : list (expr * expr)) : res :=
+    match bs with
+    | [] => match els with Some x => bindr (ev x) (fun v => Ok (conv_to t v)) | None => Ok VNull end
+    | p :: bs' =>
+      bindr (ev (fst p)) (fun cv =>
+        match truth cv with
+        | Some (Some true) => bindr (ev (snd p)) (fun w => Ok (conv_to t w))
+        | Some _ => go bs'
+        | None => Err
+        end)
+    end.
+
+Section Eval.
+Variable s : schema.
+Variable r : row.
+
+Fixpoint eval (e : expr) : res :=
   match e with
   | EField i => Ok (nth i r VNull)
   | ELit x => Ok x
-  | ENeg a => match eval r a with Ok (VInt z) => int_res (- z) | Ok _ => Ok VNull | ErrRange => ErrRange end
-  | EAdd a b => bin_int (fun x y => int_res (x + y)) (eval r a) (eval r b)
-  | ESub a b => bin_int (fun x y => int_res (x - y)) (eval r a) (eval r b)
-  | EMul a b => bin_int (fun x y => int_res (x * y)) (eval r a) (eval r b)
-  | EIntDiv a b => bin_int (fun x y => if y =? 0 then Ok VNull else int_res (Z.quot x y)) (eval r a) (eval r b)
-  | EMod a b => bin_int (fun x y => if y =? 0 then Ok VNull else int_res (Z.rem x y)) (eval r a) (eval r b)
-  | EEq a b =>
-    match eval r a, eval r b with
-    | ErrRange, _ | _, ErrRange => ErrRange
-    | Ok (VInt x), Ok (VInt y) => Ok (bool_val (x =? y))
-    | Ok (VStr x), Ok (VStr y) => Ok (bool_val (list_eqb x y))
-    | Ok _, Ok _ => Ok VNull
-    end
-  | ELt a b =>
-    match eval r a, eval r b with
-    | ErrRange, _ | _, ErrRange => ErrRange
-    | Ok (VInt x), Ok (VInt y) => Ok (bool_val (x <? y))
-    | Ok (VStr x), Ok (VStr y) => Ok (bool_val (list_ltb x y))
-    | Ok _, Ok _ => Ok VNull
-    end
-  | EIsNull a => match eval r a with Ok VNull => Ok (bool_val true) | Ok _ => Ok (bool_val false) | ErrRange => ErrRange end
-  | ECoalesce a b => match eval r a with Ok VNull => eval r b | x => x end
+  | ENeg a => bindr (eval a) (neg_val (type_of s a))
+  | EArith o a b => bindr (eval a) (fun x => bindr (eval b) (fun y => arith_val o (arith_ty o (type_of s a) (type_of s b)) x y))
+  | EIntDiv a b => bindr (eval a) (fun x => bindr (eval b) (fun y => intdiv_val (intdiv_ty (type_of s a) (type_of s b)) x y))
+  | EMod a b => bindr (eval a) (fun x => bindr (eval b) (fun y => mod_val x y))
+  | ECmp o a b => bindr (eval a) (fun x => bindr (eval b) (fun y => cmp_res o x y))
+  | EAnd a b => bindr (eval a) (fun x => bindr (eval b) (fun y => and3 x y))
+  | EOr a b => bindr (eval a) (fun x => bindr (eval b) (fun y => or3 x y))
+  | ENot a => bindr (eval a) not3
+  | EIsNull a => bindr (eval a) (fun x => Ok (bool_val (negb (notnull x))))
+  | EIn a l => bindr (eval a) (fun x => match x with VNull => Ok VNull | _ => in_go eval x l false end)
+  | EBetween a lo hi =>
+    bindr (eval a) (fun x => bindr (eval lo) (fun l => bindr (eval hi) (fun h =>
+      bindr (cmp_res Le l x) (fun p => bindr (cmp_res Ge h x) (fun q => and3 p q)))))
+  | ECase bs els => case_go eval (type_of s (ECase bs els)) els bs
+  | ENullIf a b =>
+    bindr (eval a) (fun x => bindr (eval b) (fun y =>
+      match x, y with
+      | VNull, _ => Ok VNull
+      | _, VNull => Ok x
+      | _, _ => match cmp_vals x y with Some Datatypes.Eq => Ok VNull | Some _ => Ok x | None => Err end
+      end))
+  | EIfNull a b =>
+    let t := generalize (type_of s a) (type_of s b) in
+    bindr (eval a) (fun x => match x with VNull => bindr (eval b) (fun y => Ok (conv_to t y)) | _ => Ok (conv_to t x) end)
+  | ECoalesce a b =>
+    let t := coalesce_ty (type_of s a) (type_of s b) in
+    bindr (eval a) (fun x => match x with VNull => bindr (eval b) (fun y => Ok (conv_to t y)) | _ => Ok (conv_to t x) end)
   | EIf c a b =>
-    match eval r c with
-    | ErrRange => ErrRange
-    | Ok (VInt z) => if z =? 0 then eval r b else eval r a
-    | Ok _ => eval r b
-    end
+    let t := generalize (type_of s a) (type_of s b) in
+    bindr (eval c) (fun cv =>
+      match truth cv with
+      | Some (Some true) => bindr (eval a) (fun x => Ok (conv_to t x))
+      | Some _ => bindr (eval b) (fun x => Ok (conv_to t x))
+      | None => Err
+      end)
+  | EGreatest a b =>
+    bindr (eval a) (fun x => bindr (eval b) (fun y =>
+      match x, y with
+      | VNull, _ | _, VNull => Ok VNull
+      | VInt p, VInt q => fit I64 (Z.max p q)
+      | _, _ => Err
+      end))
+  | ELeast a b =>
+    bindr (eval a) (fun x => bindr (eval b) (fun y =>
+      match x, y with
+      | VNull, _ | _, VNull => Ok VNull
+      | VInt p, VInt q => fit I64 (Z.min p q)
+      | _, _ => Err
+      end))
+  | ECast a t => bindr (eval a) (cast_val t)
   | EConcat a b =>
-    match eval r a, eval r b with
-    | ErrRange, _ | _, ErrRange => ErrRange
-    | Ok (VStr x), Ok (VStr y) => Ok (VStr (x ++ y))
-    | Ok _, Ok _ => Ok VNull
+    bindr (eval a) (fun x => bindr (eval b) (fun y => concat_val x y))
+  | EUpper a => bindr (eval a) (fun x => match x with VNull => Ok VNull | VStr b => Ok (VStr (map upper_byte b)) | _ => Err end)
+  | ESubstr a pos len => bindr (eval a) (fun x => match x with VNull => Ok VNull | VStr b => Ok (VStr (substr b pos len)) | _ => Err end)
+  | ELength a => bindr (eval a) (fun x => match x with VNull => Ok VNull | VStr b => fit I32 (Z.of_nat (length b)) | _ => Err end)
+  end.
+End Eval.
+
+(* ---------------- the guard: expressions whose reported type is sound ---------------- *)
+(* [holds a t]: every value of type a, converted as Case.Eval / If / IfNull / Coalesce do, is a value of type t *)
+Definition holds (a t : ty) : bool :=
+  ty_equals a t ||
+  match a, t with
+  | TNull, _ => true
+  | (TStr | TBool | TInt _ | TDec _ _), TStr => true
+  | TInt k, TInt k' => (ik_lo k' <=? ik_lo k) && (ik_hi k <=? ik_hi k')
+  | TBool, TInt k' => (ik_lo k' <=? ik_lo I8) && (ik_hi I8 <=? ik_hi k')
+  | TInt k, TDec p s => Z.max (- ik_lo k) (ik_hi k) <? 10 ^ (p - s)
+  | TBool, TDec p s => 128 <? 10 ^ (p - s)
+  | TDec q r, TDec p s => (r <=? s) && (q - r <=? p - s)
+  | _, _ => false
+  end.
+Definition is_int_lit (e : expr) : option Z := match e with ELit (VInt z) => Some z | _ => None end.
+
+Fixpoint well_typed (s : schema) (e : expr) : bool :=
+  match e with
+  | EField i => Nat.ltb i (length s)
+  | ELit x => has_type (lit_ty x) x
+  | ENeg a =>
+    well_typed s a &&
+    match type_of s a with   (* excluded: the unsigned kinds that keep their type, and the kinds whose minimum has no negation *)
+    | TInt I8 | TInt I16 | TInt I32 | TInt I64 | TInt U32 | TInt U64 => true
+    | TDec p sc => true
+    | _ => false
     end
+  | EArith o a b =>          (* integer arithmetic only: a DECIMAL result type is sized from the operand TYPES, not values *)
+    well_typed s a && well_typed s b && is_integer (type_of s a) && is_integer (type_of s b)
+  | EIntDiv a b =>           (* operands of the same signedness *)
+    well_typed s a && well_typed s b &&
+    ((is_unsigned (type_of s a) && is_unsigned (type_of s b)) || (is_signed (type_of s a) && is_signed (type_of s b)))
+  | EMod a b =>              (* an integer literal operand bounds the result and its digits are counted by the type *)
+    well_typed s a && well_typed s b && is_integer (type_of s a) && is_integer (type_of s b) &&
+    match (match is_int_lit a with Some z => Some z | None => is_int_lit b end), type_of s (EMod a b) with
+    | Some z, TDec p sc => Z.abs z <? 10 ^ (p - sc)
+    | _, _ => false
+    end
+  | ECmp _ a b | EAnd a b | EOr a b | ENullIf a b => well_typed s a && well_typed s b
+  | ENot a => well_typed s a && negb (match type_of s a with TNull => true | _ => false end)
+  | EIsNull a => well_typed s a
+  | EIn a l => well_typed s a && forallb (well_typed s) l
+  | EBetween a b c => well_typed s a && well_typed s b && well_typed s c
+  | ECase bs els =>
+    (* every branch type can be held by the case type *)
+    let t := type_of s (ECase bs els) in
+    forallb (fun p => well_typed s (fst p) && well_typed s (snd p) && holds (type_of s (snd p)) t) bs &&
+    match els with Some x => well_typed s x && holds (type_of s x) t | None => true end
+  | EIfNull a b | ECoalesce a b =>
+    well_typed s a && well_typed s b && holds (type_of s a) (type_of s e) && holds (type_of s b) (type_of s e)
+  | EIf c a b => well_typed s c && well_typed s a && well_typed s b && holds (type_of s a) (type_of s e) && holds (type_of s b) (type_of s e)
+  | EGreatest a b | ELeast a b => well_typed s a && well_typed s b && is_integer (type_of s a) && is_integer (type_of s b)
+  | ECast a t => well_typed s a
+  | EConcat a b => well_typed s a && well_typed s b
+  | EUpper a | ESubstr a _ _ => well_typed s a && is_text (type_of s a)
+  | ELength a => well_typed s a
   end.
 
-(* ---------------- relational layer ---------------- *)
-Definition project_schema (s : schema) (es : list expr) : schema :=
-  map (fun e => Col (type_of s e) (nullable s e)) es.
-Definition make_nullable (s : schema) : schema := map (fun c => Col (c_ty c) true) s.
-(* LEFT JOIN: left columns keep their nullability, right columns become nullable; unmatched left rows are padded *)
-Definition left_join_schema (l r : schema) : schema := l ++ make_nullable r.
-Definition pad (l : row) (n : nat) : row := l ++ repeat VNull n.
-(* UNION: a column is nullable iff it is on either side (same types in this fragment) *)
-Definition union_schema (a b : schema) : schema :=
-  map (fun p => Col (c_ty (fst p)) (c_nullable (fst p) || c_nullable (snd p))) (combine a b).
-Definition same_types (a b : schema) : bool :=
-  Nat.eqb (length a) (length b) && forallb (fun p => ty_eqb (c_ty (fst p)) (c_ty (snd p))) (combine a b).
+Fixpoint eval_all (s : schema) (r : row) (es : list expr) : option row :=
+  match es with
+  | [] => Some []
+  | e :: t => match eval s r e, eval_all s r t with Ok x, Some xs => Some (x :: xs) | _, _ => None end
+  end.
+Definition project_schema (s : schema) (es : list expr) : schema := map (fun e => Col (type_of s e) (nullable s e)) es.
